@@ -29,6 +29,11 @@ HasVal(idx, d, f) == Vals(idx, d, f) # <<>>
 Key1(idx, d, f) == Vals(idx, d, f)[1]          \* sort key of a single-valued field
 
 \* ---- facet keys: rank (>= 1) of a document's key under a sort key, 0 when it has none ------------
+\* (numeric values of the document: n.num for RangeFacet, n.whenv - seconds since 1999 - for DateRangeFacet)
+BucketOfIn(idx, d, bs, nf) ==
+  LET v == Doc(idx, d).n[nf]
+      hit == {i \in DOMAIN bs : v # <<>> /\ bs[i][1] <= v[1] /\ v[1] < bs[i][2]}
+  IN IF hit = {} THEN 0 ELSE CHOOSE i \in hit : \A j \in hit : i <= j
 BucketOf(idx, d, bs) ==
   LET v == Doc(idx, d).n.num
       hit == {i \in DOMAIN bs : v # <<>> /\ bs[i][1] <= v[1] /\ v[1] < bs[i][2]}      \* start inclusive, end exclusive
@@ -88,6 +93,7 @@ GroupsSpec(idx, S, f, overlap) ==
 \* (all of them when overlapping, otherwise one of them - the property does not say which), a field's value(s)
 AllowedKeys(idx, d, o) ==
   CASE o.f = "_range" -> {BucketOf(idx, d, o.buckets)}
+    [] o.f = "_drange" -> {BucketOfIn(idx, d, o.buckets, "whenv")}
     [] o.f = "_query" -> LET ks == QueryKeys(idx, d, o.qs) IN IF ks = {} THEN {0} ELSE ks
     [] OTHER -> GroupKeys(idx, d, o.f, o.overlap)
 GroupsOK(idx, m, o) ==
@@ -208,7 +214,7 @@ Expected(idx, m, q, o) ==
                                    spec == SortSpec(idx, m, full, o.keys)
                                IN IF o.grev THEN Rev(spec) ELSE spec,
                              matched |-> Cardinality(DOMAIN m)]
-    [] o.kind = "groups" -> IF o.f \in {"_range", "_query"}
+    [] o.kind = "groups" -> IF o.f \in {"_range", "_query", "_drange"}
                             THEN [allowed_keys |-> [d \in DOMAIN m |-> AllowedKeys(idx, d, o)]]
                             ELSE [groups |-> GroupsSpec(idx, DOMAIN m, o.f, o.overlap)]
     [] o.kind = "collapse" -> LET rk == CollapseRank(idx, m, o) IN
